@@ -260,41 +260,46 @@ def deliver (s : Irc) (m : Msg) : Irc × Delivery :=
       else ({ s1 with echoed := out.oid :: s.echoed }, .out out)
     else (s1, .out out)
 
-/-- `takeMsg`; the first argument bounds the `return self.takeMsg()` recursion (each recursive
-call happens after one message was removed from a queue; see `takeMsg`). -/
+/-- the body of `takeMsg`; `again` stands for the recursive call `return self.takeMsg()` made
+after an outFilter returned `None` -/
+def takeBody (again : Irc → Irc × List Ev) (s : Irc) : Irc × List Ev :=
+  match s.fast with
+  | m :: rest =>
+    match deliver { s with fast := rest } m with
+    | (s1, .out o) => (s1, [.took true m o s.now])
+    | (s1, .lost o) => (s1, [.lost true m o s.now])
+    | (s1, .dropped) =>
+      let r := again s1
+      (r.1, .dropped true m s.now :: r.2)
+  | [] =>
+    if !s.queue.isEmpty then
+      if s.now ≤ s.lastTake + s.cfg.throttle then
+        let r := noMsg s
+        (r.1, .throttled s.now :: r.2)
+      else
+        match s.queue.dequeue s.cfg.joinLimit s.now with
+        | (q', .msg m) =>
+          match deliver { s with lastTake := s.now, queue := q' } m with
+          | (s1, .out o) => (s1, [.took false m o s.now])
+          | (s1, .lost o) => (s1, [.lost false m o s.now])
+          | (s1, .dropped) =>
+            let r := again s1
+            (r.1, .dropped false m s.now :: r.2)
+        | (q', .rotated m) =>
+          let r := noMsg { s with lastTake := s.now, queue := q' }
+          (r.1, .rotated m s.now :: r.2)
+        | (q', .nothing) => noMsg { s with lastTake := s.now, queue := q' }
+    else
+      let r := pingBranch s
+      let r2 := noMsg r.1
+      (r2.1, r.2 ++ r2.2)
+
+/-- `takeMsg` with the recursion bounded by the first argument (each recursive call happens
+after one message was removed from a queue; `takeMsg` starts with enough, see
+`takeAux_fuel` in the lemmas) -/
 def takeAux : Nat → Irc → Irc × List Ev
   | 0, s => (s, [])
-  | fuel + 1, s =>
-    match s.fast with
-    | m :: rest =>
-      match deliver { s with fast := rest } m with
-      | (s1, .out o) => (s1, [.took true m o s.now])
-      | (s1, .lost o) => (s1, [.lost true m o s.now])
-      | (s1, .dropped) =>
-        let r := takeAux fuel s1
-        (r.1, .dropped true m s.now :: r.2)
-    | [] =>
-      if !s.queue.isEmpty then
-        if s.now ≤ s.lastTake + s.cfg.throttle then
-          let r := noMsg s
-          (r.1, .throttled s.now :: r.2)
-        else
-          match s.queue.dequeue s.cfg.joinLimit s.now with
-          | (q', .msg m) =>
-            match deliver { s with lastTake := s.now, queue := q' } m with
-            | (s1, .out o) => (s1, [.took false m o s.now])
-            | (s1, .lost o) => (s1, [.lost false m o s.now])
-            | (s1, .dropped) =>
-              let r := takeAux fuel s1
-              (r.1, .dropped false m s.now :: r.2)
-          | (q', .rotated m) =>
-            let r := noMsg { s with lastTake := s.now, queue := q' }
-            (r.1, .rotated m s.now :: r.2)
-          | (q', .nothing) => noMsg { s with lastTake := s.now, queue := q' }
-      else
-        let r := pingBranch s
-        let r2 := noMsg r.1
-        (r2.1, r.2 ++ r2.2)
+  | fuel + 1, s => takeBody (takeAux fuel) s
 
 /-- `Irc.takeMsg()` -/
 def takeMsg (s : Irc) : Irc × List Ev := takeAux (s.pending.length + 1) s
